@@ -817,7 +817,7 @@ func (d *c13Dialer) DialContext(ctx context.Context, _ string, _ string) (netpro
 }
 
 type c13EOp struct {
-	Kind string `json:"kind"` // goc write track inval reset burst
+	Kind string `json:"kind"` // goc write track inval reset burst remove
 	K    int    `json:"k"`
 	D    int    `json:"d"`
 	G    int    `json:"g"`
@@ -990,6 +990,11 @@ func c13RunECase(c c13ECase) (res []c13EStep) {
 			p.InvalidateDialerNetworkType(dialers[op.D], nt)
 		case "reset":
 			p.Reset()
+		case "remove":
+			// a flow drops its handle, as handlePkt / checkUdpEndpointHealth do: Remove(key it was obtained with, handle)
+			if op.E < len(handles) {
+				_ = p.Remove(handles[op.E].poolKey, handles[op.E])
+			}
 		}
 		st.Dials = totalDials()
 		for _, h := range handles {
@@ -1073,7 +1078,7 @@ type c13FThread struct {
 }
 
 type c13FCmd struct {
-	Kind string `json:"kind"` // step | write | track | inval | reset
+	Kind string `json:"kind"` // step | write | track | inval | reset | remove
 	I    int    `json:"i"`    // step: thread
 	E    int    `json:"e"`    // write/track: handle (dial order)
 	Out  int    `json:"out"`
@@ -1472,6 +1477,19 @@ func c13RunFCase(c c13FCase) (res c13FRes) {
 			s.mu.Lock()
 			s.events = append(s.events, []int{5})
 			s.mu.Unlock()
+		case "remove":
+			s.mu.Lock()
+			var ue *UdpEndpoint
+			if cmd.E < len(s.conns) {
+				ue = s.connUe[s.conns[cmd.E]]
+			}
+			s.mu.Unlock()
+			if ue != nil && c13FHanded(res.Steps, cmd.E) {
+				_ = p.Remove(ue.poolKey, ue)
+				s.mu.Lock()
+				s.events = append(s.events, []int{7, cmd.E})
+				s.mu.Unlock()
+			}
 		}
 		if stuck := settle(); stuck != "" {
 			res.Stuck = stuck
